@@ -897,9 +897,36 @@ pub fn make_pipe(rng: &mut Rng, print_free: bool, size: usize) -> Option<Scenari
 // W-ops (C06/C07/C08): all five operators and all six comparisons (zero and two-operand form)
 // with operands and targets in every register/spill placement
 
+/// A straight-line program with about as many live variables as the spilling back ends can hold
+/// at all (the documented capacity assertion fires somewhere in 120..150): at the last admissible
+/// size the code must still be right, one beyond it the compiler must refuse.
+fn make_capacity_edge(rng: &mut Rng) -> Scenario {
+    let mut kit = Kit { next: 7000, printless: false, obs_budget: 0 };
+    let n = std::env::var("VERIF_EDGE_N").ok().and_then(|s| s.parse().ok()).unwrap_or(120 + rng.below(31));
+    let mut vars: Vec<Name> = Vec::new();
+    let mut lits: Vec<i64> = Vec::new();
+    for _ in 0..n {
+        vars.push(kit.fresh("i"));
+        lits.push(rng.range(-300, 900));
+    }
+    let last = vars[n - 1].clone();
+    let mut body: Rc<Stmt> = Rc::new(Stmt::Exit { var: last.clone() });
+    for v in [vars[n - 1].clone(), vars[0].clone(), vars[n - 2].clone(), vars[n / 2].clone(), last] {
+        body = Rc::new(Stmt::Print { newline: true, var: v, next: body });
+    }
+    for (v, l) in vars.into_iter().zip(lits).rev() {
+        body = Rc::new(Stmt::Lit { lit: l, var: v, next: body });
+    }
+    let prog = Prog { types: kit_types(), defs: vec![Def { name: Name::new("main", 0), params: vec![], body }], max_id: kit.next + 1 };
+    Scenario { kind: "ops".into(), prog, args: vec![], meta: vec![], noise: 0 }
+}
+
 pub fn make_ops(rng: &mut Rng, backends: &[Backend], print_free: bool) -> Scenario {
     let mut kit = Kit { next: 7000, printless: false, obs_budget: 0 };
     let rv = backends.contains(&Backend::Rv);
+    if !rv && !print_free && rng.pct(2) {
+        return make_capacity_edge(rng);
+    }
     // RISC-V has no spill slots: up to exactly 14 variables, the last of which lives in X30/X31
     let cap = if rv { 15 } else { 30 };
     let k = rng.below(min_args(backends).min(3) + 1);
